@@ -231,6 +231,25 @@ objs=[inner(K*grad(u)*K.T + outer(b,u), grad(v))*dx + T4[0,1,2,0]*inner(u,v)*dx]
     _c("two_forms_module", '''
 m=mesh("triangle"); V=space(m,"P",1); u,v=TrialFunction(V),TestFunction(V); f=Coefficient(V)
 objs=[inner(grad(u),grad(v))*dx, f*v*dx, f*f*dx]'''),
+    _c("exo_iso_macro_element", '''
+m=mesh("triangle"); E=basix.ufl.element("iso","triangle",1); V=FunctionSpace(m,E); u,v=TrialFunction(V),TestFunction(V); f=Coefficient(space(m,"P",2))
+objs=[f*inner(grad(u),grad(v))*dx + inner(u,v)*dx, f*v*ds]'''),
+    _c("exo_lagrange_variants", '''
+m=mesh("quadrilateral"); E=basix.ufl.element("P","quadrilateral",2,lagrange_variant=basix.LagrangeVariant.legendre,discontinuous=True); V=FunctionSpace(m,E); u,v=TrialFunction(V),TestFunction(V)
+mt=mesh("tetrahedron"); Et=basix.ufl.element("P","tetrahedron",3,lagrange_variant=basix.LagrangeVariant.gll_warped); Vt=FunctionSpace(mt,Et); vt=TestFunction(Vt); ft=Coefficient(Vt)
+objs=[inner(u,v)*dx + inner(grad(u),grad(v))*dx, ft*ft*vt*dx + ft*vt*ds]'''),
+    _c("exo_bessel_first_second_kind", '''
+m=mesh("triangle"); V=space(m,"P",1); v=TestFunction(V); f=Coefficient(V)
+objs=[(bessel_J(1,f)+bessel_J(0,2.0*f)+bessel_Y(0,f*f+0.5)+bessel_Y(2,f*f+1.5))*v*dx]'''),
+    _c("exo_bubble_enriched_vector", '''
+m=mesh("triangle"); E=basix.ufl.blocked_element(basix.ufl.enriched_element([el("P","triangle",1), el("Bubble","triangle",3)]), shape=(2,)); V=FunctionSpace(m,E); u,v=TrialFunction(V),TestFunction(V); f=Coefficient(V)
+objs=[inner(grad(u),grad(v))*dx + inner(u,v)*ds, inner(f,v)*ds + div(f)*v[0]*dx]'''),
+    _c("exo_symmetric_tensor_3d", '''
+m=mesh("tetrahedron"); E=basix.ufl.element("P","tetrahedron",1,shape=(3,3),symmetry=True); V=FunctionSpace(m,E); s=Coefficient(V); t=TestFunction(V); u=TrialFunction(V)
+objs=[inner(s,t)*dx + s[0,2]*t[2,0]*ds, inner(u,t)*dx + u[1,2]*t[2,1]*dx]'''),
+    _c("exo_serendipity_hex", '''
+m=mesh("hexahedron"); V=space(m,"S",2); u,v=TrialFunction(V),TestFunction(V)
+objs=[inner(grad(u),grad(v))*dx]'''),
 ]
 
 
